@@ -3,7 +3,7 @@ from ..core import Stream, hx, unhx, run_driver
 from .. import mml
 
 RULE = ("macro: string macros / string variables (#A, STR A) with 0..12 parameters (#?1..#?12), bodies with state changes, loops, Sub, several parameters; "
-        "call sites at top level, in loops, Sub and inside other macros; the program that calls the macro and the program with the call replaced by the "
+        "call sites at top level, in loops, Sub, inside other macros, and — with bodies that execute BREAK/CONTINUE/RETURN — inside FOR/WHILE bodies and user functions; the program that calls the macro and the program with the call replaced by the "
         "model's substituted body (Lean substArgs) must compile to identical bytes and logs; builtin: OctaveUnison/Unison5th/Unison3th/Unison vs their "
         "documented definitions; rhythm: Rhythm{...} blocks over built-in and user-redefined letters, parenthesised spans and Sub vs the model's expansion "
         "(Lean rhythmExpand) written inline. non-trivial = distinct outputs with >= 1 expansion")
@@ -37,6 +37,16 @@ def streams(tier, rng, P, only=None, cases=None):
             site = rng.choice(["%s", "%s", "[2 %s]", "Sub{%s} r", "o5 %s v100", "#Outer={%s r} #Outer"])
             pre = rng.choice(["", "l8 ", "o4 v80 "])
             raw.append(dict(define=define, call=call, site=site, pre=pre, body=body, args=args))
+        for i in range(n // 10):
+            # macro bodies that execute BREAK / CONTINUE / RETURN, called with arguments from inside FOR / WHILE bodies and user functions:
+            # the control statement must act on the enclosing loop exactly as in the inlined text
+            body = rng.choice(["IF(I==#?1){BREAK} c", "IF(I==#?1){CONTINUE} e", "c IF(I>=#?1){BREAK} d", "IF(I==#?1){RETURN(7)} g", "IF(I<#?1){CONTINUE} c #?2"])
+            args = [str(rng.randint(0, 3)), rng.choice(["e", "r8", "o5"])]
+            name = rng.choice(["#A", "#Mac"]); define = "%s={%s}" % (name, body)
+            call = name + "(%s,{%s})" % (rng.choice(["%s", "{%s}"]) % args[0], args[1])      # a bare argument must be a number
+            site = rng.choice(["FOR(INT I=0;I<4;I++){ %s d }", "INT I=0; WHILE(I<4){ I++; %s d }", "FUNCTION FA(){ FOR(INT I=0;I<3;I++){ %s a } RETURN(1) } FA()",
+                               "FOR(INT I=0;I<3;I++){ FOR(INT J=0;J<2;J++){ %s d } e }"])
+            raw.append(dict(define=define, call=call, site=site, pre="l8 ", body=body, args=args))
         outs = run_driver(["macrosubst %s %s" % (hx(r["body"]), " ".join(hx(a) for a in r["args"])) if r["args"] else "macrosubst %s" % hx(r["body"]) for r in raw])
         cs = []
         for i, (r, o) in enumerate(zip(raw, outs)):
